@@ -457,10 +457,30 @@ def run(ck: Check, prog: Program) -> None:
                 continue
             n_pops += 1
             state = None
-            for g in guard_edges(rcfg, n):
-                k = classify_cond(prog, rem, g.src.ast)
+            conds = [(g.src.ast, g.label == 'T') for g in guard_edges(rcfg, n)]
+            # … and the arms of a conditional expression the call sits in (`a.pop(x) if m is None else b.pop(y)`)
+            top_ = n.ast.test if n.kind == 'cond' and hasattr(n.ast, 'test') else n.ast
+
+            def arm_conds(e: ast.AST, acc: list) -> Optional[list]:
+                if e is c_:
+                    return acc
+                for ch in ast.iter_child_nodes(e):
+                    extra = []
+                    if isinstance(e, ast.IfExp) and ch is e.body:
+                        extra = [(e.test, True)]
+                    elif isinstance(e, ast.IfExp) and ch is e.orelse:
+                        extra = [(e.test, False)]
+                    r_ = arm_conds(ch, acc + extra)
+                    if r_ is not None:
+                        return r_
+                return None
+            conds += arm_conds(top_, []) or []
+            for ce, pol_ in conds:
+                while isinstance(ce, ast.UnaryOp) and isinstance(ce.op, ast.Not):
+                    ce, pol_ = ce.operand, not pol_
+                k = classify_cond(prog, rem, ce)
                 if k.subject == mp and k.kind in ('is-none', 'truthy'):
-                    is_none = ((g.label == 'T') != k.negated) if k.kind == 'is-none' else ((g.label == 'T') == k.negated)
+                    is_none = (pol_ != k.negated) if k.kind == 'is-none' else (pol_ == k.negated)
                     state = is_none
             want = whole
             if state is not None and state != want or state is None:
